@@ -99,6 +99,11 @@ def oracle(sc, res):
         for e in aborts:
             if abort_reason(e, dll) not in (1, 2, 3):
                 v.append(dict(kind='abort-reason', reason=abort_reason(e, dll)))
+            # "sending a connection-abort TO THE PEER": from the address of the stack that gives up, to the other end
+            a = sends[0]['a']
+            me, peer = (a[4], a[2]) if e[1] == 0 else (a[2], a[4])
+            if (e[3] & 0xFF, (e[3] >> 8) & 0xFF) != (me & 0xFF, peer & 0xFF):
+                v.append(dict(kind='abort-not-addressed-to-the-peer', stack=e[1], id=hex(e[3]), expected_sa=me, expected_da=peer, faults=sc['faults']))
     # 4. recovery: the follow-up transfer on the same pair is accepted and delivered intact
     ret2 = [r for ev, r in res.returns if ev['op'] == 'send' and ev['t'] == tf]
     if ret2 != [True]:
